@@ -3,6 +3,9 @@ CHECKS = {
  "C06": {
   "text": "Static monitor-discipline analysis: all paths (loops 0/1 times) of every queue operation are enumerated from MIR and checked for paired byte accounting, exactly-one insert/removal per successful call, re-tested waits, wake-ups on the right condvar, close semantics, Ord delegation and capacity-dominated admission (rules Q1-Q8). These structural conditions plus the Mutex/Condvar contract imply the property for every interleaving; the queue is not executed.",
   "ref": "DESIGN.md 4/C06", "note": TB, "technique": "static analysis: MIR path enumeration + typestate/monitor rules over a custom rustc driver's facts"},
+ "C05": {
+  "text": "Structural preconditions of termination decided on MIR: barrier parties / spawn loops / sync-token loops all read config.num_threads and push one zero-size token per iteration (T1); every path round the worker loop passes a constant number of Barrier::wait calls, none under a lock, with no fallible early exit inside a round (T2); finalize pushes tokens, closes, joins all; workers leave only on pull()==None (T3); the lock-order graph over all pipeline-reachable bodies has no cycle between contexts that can run concurrently (phases derived from the barrier structure) and no blocking call holds a lock the other side needs (T4); every Condvar wait predicate can be falsified by the opposite operation for every parameter value (T5). Interleavings are not explored.",
+  "ref": "DESIGN.md 4/C05", "note": TB, "technique": "static analysis: barrier-phase dataflow, lock-order graph with concurrency contexts, loop-bound provenance, wait-predicate classification over MIR facts"},
 }
 PENDING = "check not built yet in this session (design exists in DESIGN.md); will be claimed once its rules run"
 NOT_APPLICABLE = {
